@@ -500,6 +500,53 @@ func runC08(env *core.Env) {
 			}
 		}()
 	}
+	// Integer ^ Integer against math/big: the exact power where it fits an Integer, otherwise empty or an error
+	for _, b := range []int64{2, 3, 4, 6, 10, 16, -2, -3, 256, 65536, 46340, 46341, 1073741824, 2147483647, -2147483648, 1, -1, 0} {
+		for _, e := range []int64{0, 1, 2, 3, 4, 8, 15, 16, 30, 31, 32, 33, 62, 63, 64, 65, 127, 128, 1024, 65536} {
+			n++
+			if !env.Mine(n) {
+				continue
+			}
+			func() {
+				bs := fmt.Sprint(b)
+				if b < 0 {
+					bs = "(" + bs + ")"
+				}
+				if b == -2147483648 {
+					bs = "(-2147483647 - 1)"
+				}
+				src := fmt.Sprintf("%s.power(%d)", bs, e)
+				defer env.In("un", "probe:"+src, numVal{"0", true}, "lit", 0)()
+				env.Case()
+				env.Cover("integer-power")
+				r := fx.E(env, src)
+				if r.IsPanic() {
+					env.Violatef(fx.PanicSig("C08", r), "`%s` => %s", src, r.Short())
+					return
+				}
+				exact := new(big.Int).Exp(big.NewInt(b), big.NewInt(e), nil)
+				fits := exact.IsInt64() && exact.Int64() >= -2147483648 && exact.Int64() <= 2147483647
+				if !fits {
+					if r.IsValue() && len(r.Items) > 0 {
+						env.Violatef("C08/power/overflow-expected/value-instead-of-empty", "`%s`: the exact power %s… does not fit an Integer, observed %s", src, trunc(exact.String(), 30), trunc(r.Short(), 80))
+					}
+					return
+				}
+				if r.IsError() || r.Empty() {
+					if b == 0 && e == 0 {
+						return
+					}
+					env.Violatef("C08/power/no-number", "`%s`: expected %s, observed %s", src, exact, trunc(r.Short(), 80))
+					return
+				}
+				it, ok := r.Single()
+				got, okp := model.ParseNum(it.T)
+				if !ok || !okp || got.Cmp(new(big.Rat).SetInt(exact)) != 0 {
+					env.Violatef("C08/power/wrong-value", "`%s`: expected %s, observed %s", src, exact, trunc(r.Short(), 80))
+				}
+			}()
+		}
+	}
 	// exactly representable transcendental cases and both-sides-rooted operands
 	for _, c := range []struct{ src, want string }{
 		{"4.sqrt()", "2"}, {"16.0.sqrt()", "4"}, {"2.power(10)", "1024"}, {"2.5.power(2)", "6.25"}, {"0.exp()", "1"}, {"1.ln()", "0"}, {"100.log(10)", "2"}, {"8.log(2)", "3"},
